@@ -8,7 +8,7 @@ off) and bytes/unicode mode:
     both, in the order the operations happened
   * every write is followed by a flush of the same file, before anything is written to the peer
   * the logged value has the string type of the API (str in unicode mode, bytes otherwise)
-interact()'s logging is C15.I3.
+interact()'s logging: L2_interact (the C15.I3 obligation, run here too).
 """
 from symx.spec import obligation, Text, Bytes, Int, OptInt, Bool, SKIP
 from symx.bstr import lit, tracing, _isb
@@ -28,7 +28,8 @@ ENCODES = ['pexpect.spawnbase.SpawnBase._log', 'pexpect.spawnbase.SpawnBase.read
            'pexpect.pty_spawn.spawn.send', 'pexpect.pty_spawn.spawn._log_control', 'pexpect.pty_spawn.spawn.sendcontrol',
            'pexpect.fdpexpect.fdspawn.send', 'pexpect.popen_spawn.PopenSpawn.send',
            'pexpect.popen_spawn.PopenSpawn.read_nonblocking', 'pexpect.socket_pexpect.SocketSpawn.send',
-           'pexpect.socket_pexpect.SocketSpawn.read_nonblocking']
+           'pexpect.socket_pexpect.SocketSpawn.read_nonblocking', 'pexpect.pty_spawn.spawn.interact',
+           'pexpect.pty_spawn.spawn._spawn__interact_copy']
 STUBS = ['RecFile: log file objects appending (file, write|flush, value) to one shared event list; the peer write end '
          'appends to the same list', 'FakeDecoder/FakeEncoder in unicode mode', 'os.read/recv/queue: one fixed chunk per read']
 ASSUMPTIONS = ['histories of three operations; payloads <= 2 characters']
@@ -231,7 +232,19 @@ def L1_transcript(tr, uni, lf, lr, ls, o0, o1, o2, a, b):
     return _history(tr, uni, lf, lr, ls, [pick(o0, 0, 3), pick(o1, 0, 3), pick(o2, 0, 3)], a, b)
 
 
+@obligation(params=dict(uni=Bool(), lr=Bool(), ls=Bool(), lf=Bool(), o1=Bytes(2, min=1, maxch=128), k1=Bytes(3, min=1, maxch=0x1e)),
+            tags={2: 'bytes mode', 3: 'unicode mode', 4: 'bytes mode, escape typed', 5: 'unicode mode, escape typed'}, timeout=300,
+            note='logging during interact(): the read log gets what the child wrote, the send log what was typed up to '
+                 'the escape character (the escape and what follows are neither sent nor logged), the common log both '
+                 'in order, each write flushed, in the string type of the API')
+def L2_interact(uni, lr, ls, lf, o1, k1):
+    from harness import C15
+    return C15.I3_logging(uni, lr, ls, lf, o1, k1)
+
+
 def dry_runs():
+    yield 'L2_interact', dict(uni=True, lr=True, ls=True, lf=True, o1=b'ab', k1=b'x\x1dy')
+    yield 'L2_interact', dict(uni=False, lr=True, ls=True, lf=True, o1=b'ab', k1=b'xy')
     for tr in range(4):
         for uni in (False, True):
             yield 'L1_transcript', dict(tr=tr, uni=uni, lf=True, lr=True, ls=True, o0=0, o1=2, o2=1, a='ab', b='c')
@@ -246,6 +259,6 @@ MANIFEST_ENTRY = {
                   'histories of three operations (read, send, sendline, control character) x symbolic log configuration '
                   '(three booleans) x bytes/unicode x four transports, symbolic payloads; the recorded event list (log '
                   'writes, flushes, peer writes in one timeline) must equal the expected transcript exactly, with the '
-                  'API string type; interact() logging is verified in C15.',
+                  'API string type; plus one read and one typed chunk (escape character anywhere) through interact().',
     'level_note': 'Log files and the peer are recorders; decoder/encoder uninterpreted in unicode mode.',
 }
